@@ -25,18 +25,19 @@ type shNode struct {
 	Else []*shNode `json:"else"`
 }
 
-var shapeASTs, ashapeASTs [][]*shNode
+var shapeASTs, ashapeASTs, bshapeASTs [][]*shNode
 
 func init() {
 	var f struct {
 		Shapes  [][]*shNode `json:"shapes"`
 		AShapes [][]*shNode `json:"ashapes"`
+		BShapes [][]*shNode `json:"bshapes"`
 	}
 	if err := json.Unmarshal(corpus.ShapesJSON, &f); err != nil {
 		panic("sim: shapes.json: " + err.Error())
 	}
-	shapeASTs, ashapeASTs = f.Shapes, f.AShapes
-	if len(shapeASTs) != len(corpus.Shapes) || len(ashapeASTs) != len(corpus.AShapes) {
+	shapeASTs, ashapeASTs, bshapeASTs = f.Shapes, f.AShapes, f.BShapes
+	if len(shapeASTs) != len(corpus.Shapes) || len(ashapeASTs) != len(corpus.AShapes) || len(bshapeASTs) != len(corpus.BShapes) {
 		panic("sim: shapes.json does not match the generated templates")
 	}
 }
@@ -183,6 +184,8 @@ func describeShape(ns []*shNode) string {
 			parts = append(parts, fmt.Sprintf("@Flush(){ %s }", describeShape(s.Body)))
 		case "join":
 			parts = append(parts, fmt.Sprintf("@Join(p%v)", s.Is))
+		case "btn":
+			parts = append(parts, fmt.Sprintf("<button %s={s[%d]}>", s.Ev, s.I))
 		case "const":
 			parts = append(parts, fmt.Sprintf("data-c%d", s.N))
 		case "on":
